@@ -51,7 +51,12 @@ pub fn run(rng: &mut Rng, n: usize, out: &mut Out) {
         for _ in 0..len {
             let k = *rng.pick(&keys);
             if rng.chance(3, 5) {
-                let eval = match rng.below(6) { 0 => i32::MIN, 1 => i32::MAX, 2 => 0, _ => rng.range(-40000, 40000) as i32 };
+                // scores: extremes, zero, ordinary values, the window bounds, and MATE scores (the engine's checkmate constant
+                // i32::MAX - 1000, minus a mate distance) of either sign — anything special-cased by value shows here
+                let eval = match rng.below(9) { 0 => i32::MIN, 1 => i32::MAX, 2 => 0,
+                    3 => (i32::MAX - 1000) - rng.below(70) as i32, 4 => -(i32::MAX - 1000) + rng.below(70) as i32,
+                    5 => *rng.pick(&[32767, -32767, 32766, -32768, 1, -1]),
+                    _ => rng.range(-40000, 40000) as i32 };
                 let mv = if rng.chance(1, 4) { None } else {
                     Some(Move::new(rng.below(64) as u8, rng.below(64) as u8, *rng.pick(&PIECES), *rng.pick(&KINDS)))
                 };
